@@ -248,6 +248,11 @@ class TRec:
             self.sig = (mp, ly, links)
             if any('?' in d.values() for d in mp.values()):
                 self.bad('foreign objects in the tables')
+            # a hand-made tree must be one the public API could have made (BackLinks holds in the state it starts from)
+            vis = {k: {n: h for l in reversed(ls) for n, h in l.items()} for k, ls in ly.items()}
+            if any(links.get(c) != (k, n) for tab in (mp, vis) for k, d in tab.items() for n, c in d.items()) \
+                    or any(set(mp[k]) & set(vis[k]) for k in mp):
+                self.bad('the tree the fixtures wrote is not one the public API makes (back-links, or a name in both tables)')
         finally:
             self.S.observing -= 1
 
